@@ -2,6 +2,7 @@ import Driver.Ring
 import Driver.Shard
 import Driver.Routing
 import Driver.Tls
+import Driver.Acl
 /-
 Model driver: reads the op lines a harness engine wrote (first line `engine <name>`), runs the
 executable Lean model, prints one observation line per op line.  `/verif/check` diffs this
@@ -16,6 +17,7 @@ inductive St where
   | observer (o : S2S.Observer.Obs)
   | routing (d : Drv.Routing.DSt)
   | tls
+  | acl
 
 def initSt (engine : String) : Option St :=
   match engine with
@@ -24,6 +26,7 @@ def initSt (engine : String) : Option St :=
   | "observer" => some (.observer {})
   | "routing" => some (.routing {})
   | "tls" => some .tls
+  | "acl" => some .acl
   | _ => Option.none
 
 def stepSt (st : St) (line : String) : St × String :=
@@ -34,6 +37,7 @@ def stepSt (st : St) (line : String) : St × String :=
   | .observer ob => let (ob', o) := Drv.Observer.step ob line; (.observer ob', o)
   | .routing d => let (d', o) := Drv.Routing.step d line; (.routing d', o)
   | .tls => (.tls, Drv.Tls.step line)
+  | .acl => (.acl, Drv.Acl.step line)
 
 partial def loop (h : IO.FS.Stream) (out : IO.FS.Stream) (st : St) : IO Unit := do
   let line ← h.getLine
